@@ -13,7 +13,10 @@ pub fn parent_of(ca: &str) -> &'static str { match ca { "a" => "ta", "b" => "a",
 pub fn keystate_tag(rc: &Value) -> String { rc["key_state"].as_object().and_then(|o| o.keys().next().cloned()).unwrap_or("?".into()) }
 
 /// The steps that build the hierarchy; each can be observed like any other operation.
-pub fn setup_steps() -> Vec<Box<dyn Fn(&Sys) -> Result<(), String>>> {
+pub fn setup_steps() -> Vec<Box<dyn Fn(&Sys) -> Result<(), String>>> { setup_steps_with(false) }
+
+/// With `mapping`, child "d" is told a different name ("map-d") for class "0" of its parent "a".
+pub fn setup_steps_with(mapping: bool) -> Vec<Box<dyn Fn(&Sys) -> Result<(), String>>> {
     vec![
         Box::new(|s| s.add_ca("a").map_err(|e| e.to_string())),
         Box::new(|s| s.add_parent("a", "ta", atoms_to_resources(0xff)).map_err(|e| e.to_string())),
@@ -26,6 +29,7 @@ pub fn setup_steps() -> Vec<Box<dyn Fn(&Sys) -> Result<(), String>>> {
         Box::new(|s| s.sync_rounds("c", "b", 2).map_err(|e| e.to_string())),
         Box::new(|s| s.add_ca("d").map_err(|e| e.to_string())),
         Box::new(|s| s.add_parent("d", "a", atoms_to_resources(0x30)).map_err(|e| e.to_string())),
+        Box::new(move |s| if mapping { s.child_rcn_mapping("a", "d", "0", "map-d").map_err(|e| e.to_string()) } else { Ok(()) }),
         Box::new(|s| s.sync_rounds("d", "a", 2).map_err(|e| e.to_string())),
     ]
 }
